@@ -277,3 +277,113 @@ def regroup(tier, seed, params):
                 for op in ("unflatten", "unflatten_ref", "unflatten_mut"):
                     out.append("op=%s n=%d m=%d kind=%s" % (op, n, m, kind))
     return out
+
+
+def hist(tier, seed, params):
+    """random chains of ownership-moving operations; a lengths-only simulation keeps every result
+    within the harness's length range 0..=8 (ill-typed ops are skipped identically by both sides)"""
+    rng = random.Random(seed)
+    out = []
+    nchains, maxops = (300, 14) if tier == "quick" else (20000, 40)
+    for _ in range(nchains):
+        arrays, iters, held = [], [], 0
+        ops = []
+        for _ in range(rng.randint(2, maxops)):
+            cands = ["gen", "rotA", "rotI", "rotH", "roundtrip", "dropHeld"]
+            if arrays:
+                cands += ["intoIter", "map", "fold", "clone", "popBack", "popFront", "split", "remove", "swapRemove", "dropArr", "unflatten", "append", "prepend"] * 2
+            if len(arrays) >= 2:
+                cands += ["zip", "concat", "flatten2"] * 2
+            if iters:
+                cands += ["next", "nextBack", "nth", "nthBack", "iterClone", "iterDrop", "iterCount", "iterLast", "iterFold", "iterRfold"] * 2
+            op = rng.choice(cands)
+            if op == "gen":
+                n = rng.randint(0, 8)
+                if len(arrays) >= 6:
+                    continue
+                arrays.insert(0, n); ops.append("gen:%d" % n)
+            elif op == "rotA":
+                if arrays: arrays.append(arrays.pop(0))
+                ops.append(op)
+            elif op == "rotI":
+                if iters: iters.append(iters.pop(0))
+                ops.append(op)
+            elif op in ("rotH", "roundtrip"):
+                ops.append(op)
+            elif op == "dropHeld":
+                held = max(0, held - 1); ops.append(op)
+            elif op == "intoIter":
+                iters.insert(0, arrays.pop(0)); ops.append(op)
+            elif op in ("map",):
+                held += arrays[0]; ops.append(op)
+            elif op == "fold":
+                held += arrays.pop(0); ops.append(op)
+            elif op == "clone":
+                if len(arrays) >= 6: continue
+                arrays.insert(0, arrays[0]); ops.append(op)
+            elif op in ("popBack", "popFront"):
+                if arrays[0] > 0:
+                    arrays[0] -= 1; held += 1
+                ops.append(op)
+            elif op == "split":
+                k = rng.randint(0, arrays[0] + 1)
+                if k <= arrays[0]:
+                    n = arrays.pop(0); arrays.insert(0, n - k); arrays.insert(0, k)
+                ops.append("split:%d" % k)
+            elif op in ("remove", "swapRemove"):
+                i = rng.randint(0, arrays[0] + 1)
+                if i < arrays[0]:
+                    arrays[0] -= 1; held += 1
+                else:
+                    arrays.pop(0)
+                ops.append("%s:%d" % (op, i))
+            elif op == "dropArr":
+                arrays.pop(0); ops.append(op)
+            elif op == "unflatten":
+                n = arrays[0] // 2 if rng.random() < 0.8 else rng.randint(0, 4)
+                if n > 0 and arrays[0] == 2 * n:
+                    arrays.pop(0); arrays.insert(0, n); arrays.insert(0, n)
+                ops.append("unflatten:%d" % n)
+            elif op in ("append", "prepend"):
+                if held > 0:
+                    if arrays[0] >= 8:
+                        continue
+                    arrays[0] += 1; held -= 1
+                ops.append(op)
+            elif op == "zip":
+                if arrays[0] == arrays[1]:
+                    n = arrays.pop(0); held += 2 * n
+                ops.append(op)
+            elif op == "concat":
+                if arrays[0] + arrays[1] > 8:
+                    continue
+                n = arrays.pop(0); arrays[0] += n; ops.append(op)
+            elif op == "flatten2":
+                if arrays[0] == arrays[1]:
+                    if 2 * arrays[0] > 8:
+                        continue
+                    n = arrays.pop(0); arrays[0] = 2 * n
+                ops.append(op)
+            elif op in ("next", "nextBack"):
+                if iters[0] > 0:
+                    iters[0] -= 1; held += 1
+                ops.append(op)
+            elif op in ("nth", "nthBack"):
+                n = rng.randint(0, iters[0] + 1)
+                iters[0] -= min(n, iters[0])
+                if iters[0] > 0:
+                    iters[0] -= 1; held += 1
+                ops.append("%s:%d" % (op, n))
+            elif op == "iterClone":
+                if len(iters) >= 6: continue
+                iters.insert(0, iters[0]); ops.append(op)
+            elif op in ("iterDrop", "iterCount"):
+                iters.pop(0); ops.append(op)
+            elif op == "iterLast":
+                n = iters.pop(0)
+                if n > 0: held += 1
+                ops.append(op)
+            elif op in ("iterFold", "iterRfold"):
+                held += iters.pop(0); ops.append(op)
+        out.append("ops=" + ";".join(ops))
+    return out
